@@ -84,7 +84,26 @@ func (t *Table) Remove(id uint64) {
 	t.faces.Delete(id)
 	dispatch.RemoveFace(id)
 	table.Rib.CleanUpFace(id)
+	cleanUpFibNextHops(id)
 	core.LogInfo(t, "Unregistered FaceID=", id)
+}
+
+// cleanUpFibNextHops removes the next hops on a removed face that are left in the FIB
+// once the RIB has withdrawn the routes of the face: the next hops that were installed
+// directly (fib/add-nexthop) and have no route in the RIB. Face ids are not reused, so
+// nothing would ever remove them, nor the FIB entries and nodes that only exist for them.
+func cleanUpFibNextHops(id uint64) {
+	if table.FibStrategyTable == nil {
+		return
+	}
+	for _, entry := range table.FibStrategyTable.GetAllFIBEntries() {
+		for _, nexthop := range entry.GetNextHops() {
+			if nexthop.Nexthop == id {
+				table.FibStrategyTable.RemoveNextHopEnc(entry.Name(), id)
+				break
+			}
+		}
+	}
 }
 
 // ExpirationHandler stops the faces that have expired
